@@ -27,7 +27,7 @@ ASSUMPTIONS = ['well-typed arguments per DESIGN.md s4.1 (ints, bytes, lists of 2
                'required)', 'send_headers on a forgotten stream may raise StreamIDTooLowError (the library cannot tell '
                'a late send from an attempt to open a low id)']
 TIERS = {'quick': {'cases': 6000, 'size': 400, 'atheris_runs': 16000},
-         'thorough': {'cases': 300000, 'size': 500, 'atheris_runs': 1600000}}
+         'thorough': {'cases': 300000, 'size': 500, 'atheris_runs': 640000}}
 TOP = 2**31 - 1
 
 HEADER_LISTS = [
